@@ -45,9 +45,12 @@ let parse_eobs (allow_x : bool) (pfx : char) (t : string) : eobs option =
     let n = String.length t in
     if n < 4 then raise (Bad_out t);
     let e = t.[n-1] and ok = t.[n-2] in
-    if e = 'X' && not allow_x then raise (Bad_out "X");
     if not ((e = 'E' || e = '-' || e = 'X') && (ok = '+' || ok = '!')) then raise (Bad_out t);
-    Some { o_n = n_of_dec (String.sub t 1 (n-3)); o_prefix = (ok = '+'); o_eos = (e <> '-') }
+    let seen = match e with 'E' -> CleanEos | 'X' -> ResetEos | _ -> NoEos in
+    (* extracted rule (C04_reset_rule): a reset is end-of-stream only once the peer is gone *)
+    (match eos_flag allow_x seen with
+     | None -> raise (Bad_out "X")
+     | Some eos -> Some { o_n = n_of_dec (String.sub t 1 (n-3)); o_prefix = (ok = '+'); o_eos = eos })
   end
 
 let parse_cobs ((cab, tab) : bool * bool) (t : string) : cobs =
@@ -114,7 +117,13 @@ let judge _name ins outs =
           int_of_string r end
         else 200 in
       let via = if via.[0] = 'F' then "F" else via in
-      let want_status = Printf.sprintf "s%d" fcode in
+      (* extracted oracle (C04_status_oracle) *)
+      let want_n = expected_status (if via = "F" then Some (n_of_int fcode) else None) in
+      let want_status = "s" ^ dec_of_n want_n in
+      let got_status (tok : string) : n option =
+        let l = String.length tok in
+        if l > 1 && tok.[0] = 's' && String.for_all (fun ch -> ch >= '0' && ch <= '9') (String.sub tok 1 (l - 1))
+        then Some (n_of_dec (String.sub tok 1 (l - 1))) else None in
       let early_shut = e.[String.length e - 1] = 'h' in
       let e = if early_shut then String.sub e 0 (String.length e - 1) else e in
       let phtoks = if early_shut then "ch/t" :: phtoks else phtoks in
@@ -144,7 +153,7 @@ let judge _name ins outs =
             np_t = n_of_int t.bytes; np_tshut = (t.shut <> ' ') }) phases in
       (match outs with
        | "PANIC" :: _ -> VPropfail ("panic", "harness-recovered-panic")
-       | s :: rest when s <> want_status || rest = [] ->
+       | s :: rest when not (status_ok want_n (got_status s)) || rest = [] ->
            VPropfail ("connect_status", "want=" ^ want_status ^ " got=" ^ String.concat "_" outs)
        | _ when via = "F" && not (connect_downstream (n_of_int fcode)).d_tunnel ->
            VDisagree "model-says-this-downstream-status-is-not-a-tunnel(Gen_Ret.downstream_any_2xx)"
